@@ -725,7 +725,8 @@ def make_gadget(rng, gid, k, profile, force=None):
     every = 5 if profile == "c10" else 3
     if k % every == 0:
         side, kd, mode = COMBOS[(k // every) % len(COMBOS)]
-        if g["twist"] is None and g["src_mode"] == "base" and g["snk_mode"] == "base":
+        g["twist"], g["src_mode"], g["snk_mode"] = None, "base", "base"
+        if True:
             if side == "source":
                 g["sk"], g["src_mode"] = kd, mode
             else:
